@@ -12,7 +12,7 @@ EXTENDS HttpWireMC, Json, IOUtils
 VARIABLE l
 
 Trace == ndJsonDeserialize(IOEnv.VERIF_TRACE)
-Chunk == 32
+Chunk == 8
 
 \* l = 0 is a dummy root so that TLC's workers share the lines (see TraceProfile)
 TInit == l = 0 /\ C = [fmt |-> "none"]
